@@ -203,6 +203,38 @@ def oracle(case: dict):
             if rel not in after:
                 return ("write-missing", f"{op} to {rel} did not create the target")
             return None
+        if op == "write-again":
+            # histories in one process: (a) a write into a folder that does not exist yet, the folder is removed, the same write
+            # again; (b) the same RELATIVE target from two working directories.  Every write creates its missing parents.
+            fmt = case["fmt"]
+            ext = {"native": "", "foam": ".foam", "json": ".json", "xml": ".xml"}[fmt]
+            d = {k: v for k, v in content_dict(rng, strkeys=True).items() if isinstance(k, str)}
+
+            def put(tgt):
+                if case.get("dump"):
+                    dictIO.SDict(copy.deepcopy(d)).dump(tgt)
+                else:
+                    dictIO.DictWriter.write(copy.deepcopy(d), tgt, mode=case["mode"])
+            try:
+                if case["how"] == "removed":
+                    tgt = root / "out_new" / "run" / f"result{ext}"
+                    for rnd in (1, 2, 3):
+                        put(tgt)
+                        if not tgt.is_file():
+                            return ("write-missing", f"write no. {rnd} into the (re)moved folder {tgt.parent.relative_to(root)} did not create the target")
+                        shutil.rmtree(root / "out_new")
+                else:
+                    for cw in ("case_1", "case_2", "case_1/sub"):
+                        (root / cw).mkdir(parents=True, exist_ok=True)
+                        os.chdir(root / cw)
+                        put(Path("results") / f"summary{ext}")
+                        if not (root / cw / "results" / f"summary{ext}").is_file():
+                            return ("write-missing", f"relative target results/summary{ext} written from cwd {cw} was not created there")
+            except Exception as e:  # noqa: BLE001
+                return ("raises", f"{case['how']}: write raised {type(e).__name__}: {e}")
+            finally:
+                os.chdir(cwd)
+            return None
         if op == "parse":
             o = case["opts"]
             natives = [p for p, k in files if k == "native"]
@@ -385,6 +417,8 @@ def run(ctx):
             if rng.random() < 0.25:
                 cases.append({"op": "write", "seed": seed, "file": 0, "fmt": fmt, "where": where, "mode": mode})
         cases.append({"op": "dump", "seed": seed, "file": 0, "fmt": rng.choice(["native", "foam", "json", "xml"]), "where": rng.choice(["existing", "new", "deep"]), "mode": "a"})
+        cases.append({"op": "write-again", "seed": seed, "file": 0, "fmt": rng.choice(["native", "foam", "json", "xml"]), "mode": rng.choice(["a", "w"]),
+                      "how": rng.choice(["removed", "cwd"]), "dump": rng.random() < 0.25})
         for fmt in ("native", "foam", "json", "xml", "xml-ns"):
             cases.append({"op": "fail", "seed": seed, "file": 0, "fmt": fmt})
         cases.append({"op": "tostring", "seed": seed, "file": 0})
